@@ -6,6 +6,7 @@ Writer layer: `RoundTripCollElemGenW.lean`; reader layer: `RoundTripCollElemGenR
 import CassisModel.Proofs.RoundTripCollElemGenDefs
 import CassisModel.Proofs.RoundTripCollElemGenW
 import CassisModel.Proofs.RoundTripCollElemGenR
+import CassisModel.Proofs.RoundTripCollElemGenRen
 
 namespace Cassis.Xmi.CG1
 open Cassis.TS Cassis.Traverse Cassis.Lex
@@ -42,14 +43,14 @@ theorem renderFeatures_gen (K : Consts) (ts : TypeSystem) (cass : List Cas) (H :
     ∀ (fs : List Feature),
       (∀ f ∈ fs, ∃ av ks, renderFeature K ts cass H a isAnn f = .ok (featOut f av ks)) →
       renderFeatures K ts cass H a isAnn fs =
-        .ok (gAttrs (fAttr K ts cass H a isAnn) fs, gKids (fKids K ts cass H a isAnn) fs)
+        .ok (gAttrsW (fAttr K ts cass H a isAnn) fs, gKidsW (fKids K ts cass H a isAnn) fs)
   | [], _ => rfl
   | f :: fs, h => by
     obtain ⟨av, ks, hr⟩ := h f List.mem_cons_self
     rw [renderFeatures, hr, renderFeatures_gen K ts cass H a isAnn fs (fun g hg => h g (List.mem_cons_of_mem _ hg))]
-    show _ = Except.ok ((match fAttr K ts cass H a isAnn f with | some s => [(f.name, s)] | none => []) ++
-        gAttrs (fAttr K ts cass H a isAnn) fs,
-      (fKids K ts cass H a isAnn f).map (fun e => (f.name, e)) ++ gKids (fKids K ts cass H a isAnn) fs)
+    show _ = Except.ok ((match fAttr K ts cass H a isAnn f with | some s => [(xmlName f, s)] | none => []) ++
+        gAttrsW (fAttr K ts cass H a isAnn) fs,
+      (fKids K ts cass H a isAnn f).map (fun e => (xmlName f, e)) ++ gKidsW (fKids K ts cass H a isAnn) fs)
     rw [fAttr_of hr, fKids_of hr]
     rfl
 
@@ -58,7 +59,7 @@ theorem renderFs_gen (K : Consts) (ts : TypeSystem) (cass : List Cas) (H : Heap)
     (hx : o.xid = some x) (hpa : isPrimitiveArray K o.ty = false) (hfa : o.ty ≠ FS_ARRAY)
     (hf : ∀ f ∈ allFeatures t, ∃ av ks,
       renderFeature K ts cass H a (isInstanceOf ts o.ty ANNOTATION) f = .ok (featOut f av ks)) :
-    renderFs K ts cass H a = .ok (gElem o.ty x (fAttr K ts cass H a (isInstanceOf ts o.ty ANNOTATION))
+    renderFs K ts cass H a = .ok (gElemW o.ty x (fAttr K ts cass H a (isInstanceOf ts o.ty ANNOTATION))
       (fKids K ts cass H a (isInstanceOf ts o.ty ANNOTATION)) (allFeatures t)) := by
   have hgt : getType ts o.ty = .ok t := by unfold getType; rw [ht]
   have hfa' : (o.ty == FS_ARRAY) = false := by simp [hfa]
@@ -66,6 +67,103 @@ theorem renderFs_gen (K : Consts) (ts : TypeSystem) (cass : List Cas) (H : Heap)
   simp only [ho, pure, Except.pure, bind, Except.bind, hpa, hfa', Bool.or_self, Bool.false_eq_true, if_false, hgt,
     renderFeatures_gen K ts cass H a _ (allFeatures t) hf, hx]
   rfl
+
+/-! ### the written element and the element under the stored names -/
+
+theorem gAttrsW_ren (ca : Feature → Option String) :
+    ∀ (fs : List Feature), (∀ f ∈ fs, ResOk f ∧ f.name ≠ "self" ∧ f.name ≠ "type") →
+      renKeys (gAttrsW ca fs) = gAttrs ca fs
+  | [], _ => rfl
+  | f :: fs, h => by
+    obtain ⟨h1, h2, h3⟩ := h f List.mem_cons_self
+    unfold gAttrsW gAttrs renKeys
+    rw [List.map_append]
+    congr 1
+    · cases ca f with
+      | none => rfl
+      | some s =>
+        show [(renRes (xmlName f), s)] = [(f.name, s)]
+        rw [renRes_xmlName f h1 h2 h3]
+    · exact gAttrsW_ren ca fs (fun g hg => h g (List.mem_cons_of_mem _ hg))
+
+theorem gKidsW_ren (ck : Feature → List (Option String)) :
+    ∀ (fs : List Feature), (∀ f ∈ fs, ResOk f ∧ f.name ≠ "self" ∧ f.name ≠ "type") →
+      renKeys (gKidsW ck fs) = gKids ck fs
+  | [], _ => rfl
+  | f :: fs, h => by
+    obtain ⟨h1, h2, h3⟩ := h f List.mem_cons_self
+    unfold gKidsW gKids renKeys
+    rw [List.map_append, List.map_map]
+    congr 1
+    · apply List.map_congr_left
+      intro e _
+      show (renRes (xmlName f), e) = (f.name, e)
+      rw [renRes_xmlName f h1 h2 h3]
+    · exact gKidsW_ren ck fs (fun g hg => h g (List.mem_cons_of_mem _ hg))
+
+theorem gAttrsW_keys (ca : Feature → Option String) :
+    ∀ (fs : List Feature) (k : String), k ∈ (gAttrsW ca fs).map (·.1) → ∃ f ∈ fs, k = xmlName f
+  | [], k, h => by cases h
+  | f :: fs, k, h => by
+    unfold gAttrsW at h
+    rw [List.map_append, List.mem_append] at h
+    rcases h with h | h
+    · refine ⟨f, List.mem_cons_self, ?_⟩
+      cases hc : ca f with
+      | none => rw [hc] at h; cases h
+      | some s => rw [hc] at h; simpa using h
+    · obtain ⟨g, hg, hk⟩ := gAttrsW_keys ca fs k h
+      exact ⟨g, List.mem_cons_of_mem _ hg, hk⟩
+
+theorem gKidsW_keys (ck : Feature → List (Option String)) :
+    ∀ (fs : List Feature) (k : String), k ∈ (gKidsW ck fs).map (·.1) → ∃ f ∈ fs, k = xmlName f
+  | [], k, h => by cases h
+  | f :: fs, k, h => by
+    unfold gKidsW at h
+    rw [List.map_append, List.mem_append] at h
+    rcases h with h | h
+    · refine ⟨f, List.mem_cons_self, ?_⟩
+      rw [List.map_map] at h
+      obtain ⟨e, _, he⟩ := List.mem_map.mp h
+      exact he.symm
+    · obtain ⟨g, hg, hk⟩ := gKidsW_keys ck fs k h
+      exact ⟨g, List.mem_cons_of_mem _ hg, hk⟩
+
+/-- reading the written element is reading the element under the stored names -/
+theorem parse_gElemW (K : Consts) (ts : TypeSystem) (tsIdx : Nat) (hp : Heap) (ty : String) (x : Int)
+    (ca : Feature → Option String) (ck : Feature → List (Option String)) (fs : List Feature)
+    (hnd : (fs.map (·.name)).Nodup)
+    (h : ∀ f ∈ fs, ResOk f ∧ f.name ≠ "self" ∧ f.name ≠ "type" ∧ f.name ≠ ID) :
+    parseFsElem K ts tsIdx hp (gElemW ty x ca ck fs) = parseFsElem K ts tsIdx hp (gElem ty x ca ck fs) := by
+  have h' : ∀ f ∈ fs, ResOk f ∧ f.name ≠ "self" ∧ f.name ≠ "type" :=
+    fun f hf => ⟨(h f hf).1, (h f hf).2.1, (h f hf).2.2.1⟩
+  have hren : renElem (gElemW ty x ca ck fs) = gElem ty x ca ck fs := by
+    unfold renElem gElemW gElem
+    simp only [renKeys_cons, gAttrsW_ren ca fs h', gKidsW_ren ck fs h']
+    congr 2
+  rw [← hren]
+  symm
+  apply parseFsElem_ren
+  -- every name of the element is the id or the written name of a feature
+  have hkey : ∀ k ∈ (gElemW ty x ca ck fs).attrs.map (·.1) ++ (gElemW ty x ca ck fs).kids.map (·.1),
+      k = ID ∨ ∃ f ∈ fs, k = xmlName f := by
+    intro k hk
+    unfold gElemW at hk
+    simp only [List.map_cons, List.cons_append, List.mem_cons, List.mem_append] at hk
+    rcases hk with hk | hk | hk
+    · exact Or.inl hk
+    · exact Or.inr (gAttrsW_keys ca fs k hk)
+    · exact Or.inr (gKidsW_keys ck fs k hk)
+  intro k hk k' hk' he
+  rcases hkey k hk with rfl | ⟨f, hf, rfl⟩ <;> rcases hkey k' hk' with rfl | ⟨g, hg, rfl⟩
+  · rfl
+  · rw [renRes_xmlName g (h g hg).1 (h g hg).2.1 (h g hg).2.2.1, (renRes_id ID).mpr rfl] at he
+    exact absurd he.symm (h g hg).2.2.2
+  · rw [renRes_xmlName f (h f hf).1 (h f hf).2.1 (h f hf).2.2.1, (renRes_id ID).mpr rfl] at he
+    exact absurd he (h f hf).2.2.2
+  · rw [renRes_xmlName f (h f hf).1 (h f hf).2.1 (h f hf).2.2.1,
+      renRes_xmlName g (h g hg).1 (h g hg).2.1 (h g hg).2.2.1] at he
+    rw [feat_inj_of_nodup fs hnd f hf g hg he]
 
 /-! ### what is known per feature -/
 
@@ -112,6 +210,12 @@ theorem FeatCase.names (h : FeatCase K ts cass c ci H isAnn o f v av ks) :
   · exact ⟨hf.2.2.2.2.1, hf.2.2.2.1, hf.2.2.1⟩
   · exact ⟨hn.2.2.2.2.1, hn.2.2.2.1, hn.2.2.1⟩
   · exact ⟨hn.2.2.2.2.1, hn.2.2.2.1, hn.2.2.1⟩
+
+theorem FeatCase.res (h : FeatCase K ts cass c ci H isAnn o f v av ks) : ResOk f := by
+  rcases h with ⟨hf, _⟩ | ⟨hn, _⟩ | ⟨hn, _⟩
+  · exact hf.1
+  · exact hn.1
+  · exact hn.1
 
 theorem InlW.kids (h : InlW K H f v av ks) (hk : ks ≠ []) :
     av = none ∧ (isPrimitiveArray K f.range = true ∨ (isPrimitiveList K f.range = true ∧ f.range = STRING_LIST)) := by
@@ -308,11 +412,14 @@ theorem gen_elem1 (K : Consts) (ts : TypeSystem) (cass : List Cas) (ci : Nat) (c
     · intro f hf hn s hs
       obtain ⟨v, hv, hcase⟩ := hfc' f hf
       exact hcase.sofa hc hv hn s hs
-  refine ⟨o, gElem o.ty x ca ck (allFeatures t), ho, ?_, hns, hnv, ?_⟩
+  refine ⟨o, gElemW o.ty x ca ck (allFeatures t), ho, ?_, hns, hnv, ?_⟩
   · exact renderFs_gen K ts cass H a x o t ho ht hox hpa hfa
       (fun f hf => by obtain ⟨v, av, ks, _, hr, _⟩ := hfc f hf; exact ⟨av, ks, hr⟩)
   · intro hpCur
     obtain ⟨ext, o1, hparse, hext, hty, hxid, hkeys, hslot⟩ := parse_gen K ts tsIdx t x o.ty ca ck hgt hpa hrok hpCur
+    rw [← parse_gElemW K ts tsIdx hpCur o.ty x ca ck (allFeatures t) hnd (fun f hf => by
+      obtain ⟨v, _, hcase⟩ := hfc' f hf
+      exact ⟨hcase.res, hcase.names.2.1, hcase.names.2.2, hcase.names.1⟩)] at hparse
     refine ⟨ext, o1, hparse, hext, ⟨by rw [hty, htn], hxid, by rw [hkeys, hslots], ?_⟩⟩
     intro n v hv
     have hmem : n ∈ ctorFields t := by
